@@ -552,6 +552,22 @@ pub fn check_c08(cx: &Ctx, rep: &mut Report) {
     for s in 0..g.states.len() {
         let Some(go) = &g.states[s].g else { continue };
         rep.case(&format!("{}|{:?}|{}", go.record_state, go.mls.as_ref().map(|m| (&m.ext, m.epoch)), go.pending_commit));
+        // routing: of all Nostr group ids the group ever carried, exactly the one in force resolves to it
+        if go.record_state == "active" {
+            let cur = go.record["nostr_group_id"].as_str().unwrap_or("").to_string();
+            let routes = &g.states[s].routes;
+            if *routes != vec![cur.clone()] {
+                let stale: Vec<&String> = routes.iter().filter(|r| **r != cur).collect();
+                let class = if routes.is_empty() { "current-id-does-not-resolve".to_string() } else if !stale.is_empty() && routes.contains(&cur) { "an-id-no-longer-in-force-still-resolves".to_string() } else { "only-an-id-no-longer-in-force-resolves".to_string() };
+                let path = g.path_to(s);
+                let is_bad = |e: usize| -> bool {
+                    let Some(x) = &g.states[e].g else { return false };
+                    x.record_state == "active" && g.states[e].routes != vec![x.record["nostr_group_id"].as_str().unwrap_or("").to_string()]
+                };
+                let min = g.minimise(&path, &is_bad);
+                rep.finding(format!("C08|routing|{class}|{}", abstract_trace(cx, &min)), format!("after [{}] the ids that resolve to the group are {routes:?}, the id in force is {cur}", trace_labels(cx, &min).join(" ; ")), detail(cx, &min, json!({"routes": routes, "in_force": cur})));
+            }
+        }
         if let Some(bad) = record_mismatch(go) {
             let path = g.path_to(s);
             let pred = |e: usize| g.states[e].g.as_ref().and_then(record_mismatch).as_deref() == Some(bad.as_str());
